@@ -91,6 +91,7 @@ def random_case(rng: random.Random) -> dict:
     case = {"fields": fields, "vals": vals, "variant": rng.choice(["attr", "method", "property"]),
             "split": rng.randint(0, len(vals) - 1) if rng.random() < 0.4 else 0, "wo": "",
             "depreq": len(fields) >= 2 and not fields[0]["req"] and not fields[1]["req"] and rng.random() < 0.4}
+    case["generic"] = not case["split"] and rng.random() < 0.3
     # an InitVar dependency (declared parameter) -- kept out of field validators / yielded paths
     cand = [f["name"] for f in fields if not any(v["fld"] == f["name"] for v in vals)]
     if cand and rng.random() < 0.3:
